@@ -57,7 +57,7 @@ func (p *propC10) Prepare(seed uint64, tier string) int {
 	maxCorpus := 160000
 	nModel := 40
 	p.count = 1500
-	if tier == "thorough" {
+	if isThorough(tier) {
 		maxCorpus = 1100000
 		nModel = 200
 		p.count = 40000
